@@ -124,8 +124,8 @@ PROPS = {
         not_decided="numeric operands and formatting, operator vocabulary dispatch, marked-content property lists, TJ arrays",
     ),
     "C27": dict(
-        verus=["pagelabels"],
-        standins=["letters"],
+        verus=["pagelabels", "labeldict"],
+        standins=["letters", "labels"],
         not_decided="decimal formatting (u32::to_string), to_uppercase, range lookup and number-tree serialisation pending",
     ),
     "C29": dict(
